@@ -399,6 +399,7 @@ func cmdCheck(args []string) int {
 	var samples []interface{}
 	var failed []*Obligation
 	var knownHit []string
+	knownObl := 0 // failed obligations that are listed as open known findings (bounded stand-ins are counted apart)
 	trusted := map[string]bool{}
 	var notes []string
 	for _, j := range jobs {
@@ -465,6 +466,7 @@ func cmdCheck(args []string) int {
 		if kf := matchKnown(known, *prop, o.Name); kf != nil {
 			fmt.Printf("KNOWN-FINDING: property=%s %s: %s\n", *prop, o.Name, kf.What)
 			knownHit = append(knownHit, o.Name)
+			knownObl++
 			continue
 		}
 		violations++
@@ -487,6 +489,12 @@ func cmdCheck(args []string) int {
 	bounded := runBounded(*verif, *prop, *tier)
 	for _, bs := range bounded {
 		if ok, _ := bs["ok"].(bool); !ok {
+			if kf := matchKnown(known, *prop, fmt.Sprintf("bounded.%v", bs["name"])); kf != nil {
+				fmt.Printf("KNOWN-FINDING: property=%s bounded.%v: %s\n", *prop, bs["name"], kf.What)
+				knownHit = append(knownHit, fmt.Sprintf("bounded.%v", bs["name"]))
+				bs["known_finding"] = true
+				continue
+			}
 			fmt.Printf("ASSUMPTION-CHECK-FAILED property=%s bounded stand-in %v failed: %v\n", *prop, bs["name"], bs["output"])
 			violations++
 			path := writeReplay(replayDir, "bounded."+mangle(fmt.Sprint(bs["name"])), fmt.Sprintf("bounded validation %v failed\n%v\n", bs["name"], bs["output"]))
@@ -519,7 +527,7 @@ func cmdCheck(args []string) int {
 				// obligations: the obligations this run claims as proved. An obligation that fails and is listed
 				// as an open known finding is not claimed: it is counted under obligations_generated and named
 				// under known_findings_hit, never under discharged.
-				"obligations": total - len(knownHit), "discharged": discharged,
+				"obligations": total - knownObl, "discharged": discharged,
 				"obligations_generated":    total,
 				"open_known_findings":      len(knownHit),
 				"checker_cmd":              fmt.Sprintf("/verif/bin/govc check -prop %s -tier %s", *prop, *tier),
